@@ -434,7 +434,7 @@ def run(ctx):
                 combos.append((s3, s2, o))
     rc = gen.rng(ctx.seed, PROP, 'combos')
     rc.shuffle(combos)
-    ncomb = 16 if ctx.quick else 200
+    ncomb = 96 if ctx.quick else 576
     for ci, (s3, s2, o) in enumerate(combos[:ncomb]):
         if not ctx.mine(ci):
             continue
